@@ -111,8 +111,12 @@ def run_case(case, base):
     body = render(case["tree"], base)
     if top["at"] is not None:
         write(os.path.join(base, top["at"]), json.dumps(body) if top.get("wellformed", True) else "{a: [")
+    # symbolic links to directories: [link (below the root), target (relative to the link's directory, or /B/...)]
+    for link, target in case.get("links", []):
+        os.symlink(real(target, base), os.path.join(base, link))
     start = os.path.join(base, case["start"])
     listing = sorted("/B" + os.path.join(d, f)[len(base):] for d, _, fs in os.walk(base) for f in fs)
+    dirs = sorted("/B" + d[len(base):] for d, _, _ in os.walk(base))  # the physical directories (links are not followed)
     os.chdir(start)
     given = real(top["given"], base)
 
@@ -154,6 +158,9 @@ def run_case(case, base):
         # get_defaults() and parse_path() called directly let TypeError/PathError through; which exception
         # class a failed load surfaces as is property C03, not C19 — canonicalised to "fail"
         obs = {"fail": type(e).__name__}
+    except OSError as e:
+        # e.g. FileNotFoundError from os.chdir inside change_to_path_dir: not a documented error of parsing
+        obs = {"oserr": type(e).__name__}
     except SystemExit as e:
         obs = {"other": "SystemExit(%r)" % (e.code,)}
     except BaseException as e:  # noqa
@@ -170,11 +177,17 @@ def run_case(case, base):
     obs["cpd_after"] = canon(current_path_dir.get())
     obs["cwd_before"] = canon(start)
     obs["files"] = listing
+    obs["dirs"] = dirs
+    obs["links"] = [["/B/" + link, canon(os.path.realpath(os.path.join(base, link)))] for link, _ in case.get("links", [])]
     return obs
 
 
 def in_child(case):
-    base = tempfile.mkdtemp(prefix="jv_c19c_")
+    # physical (os.getcwd() answers physical paths) and two levels below the scratch directory, so that a spelling
+    # whose lexical normalisation climbs above the fixture root lands in a directory that certainly does not exist
+    scratch = os.path.realpath(tempfile.mkdtemp(prefix="jv_c19c_"))
+    base = os.path.join(scratch, "q", "B")
+    os.makedirs(base)
     r, w = os.pipe()
     pid = os.fork()
     if pid == 0:
@@ -192,7 +205,7 @@ def in_child(case):
     with os.fdopen(r) as f:
         data = f.read()
     _, status = os.waitpid(pid, 0)
-    shutil.rmtree(base, ignore_errors=True)
+    shutil.rmtree(scratch, ignore_errors=True)
     if status != 0:
         raise SystemExit("c19_cwd child exited with status %d" % status)
     return json.loads(data)
